@@ -52,6 +52,10 @@ def cmd_run(argv):
                 rec['summary'] = eng.summary(scn)
                 o = eng.execute(scn)
                 rec.update(o)
+                if os.environ.get('VERIF_REPEAT'):
+                    # determinism self-test: same seed again in the same (now warm) process
+                    o2 = eng.execute(eng.generate(prop, seed, tier))
+                    rec['digest_again'] = o2.get('digest')
                 if o.get('violation'):
                     scn.update(rec.pop('scenario_patch', None) or {})
                     rec['scenario'] = scn
